@@ -61,6 +61,7 @@ fn main() {
         "C11" => dispatch(&props::c11::P, &args),
         "C15" => dispatch(&props::c15::P, &args),
         "C16" => dispatch(&props::c16::P, &args),
+        "C17" => dispatch(&props::c17::P, &args),
         "C18" => dispatch(&props::c18::P, &args),
         other => {
             eprintln!("unknown property {}", other);
